@@ -448,7 +448,27 @@ var verifC36Hostile = []string{
 	"x\\", "tab\there", "nl\nnl", strings.Repeat("a", 300), `{k="v"}`, "1", "NaN",
 }
 
+// long label values: around 1 KiB and beyond, plain or with a character that needs escaping placed
+// around the 1024-byte mark (of the escaped form) — a renderer must neither cut nor cap them
+func verifC36Long(r *verifutil.Rand) string {
+	n := []int{1023, 1024, 1025, 2048, 4096, 1022, 1026}[r.Intn(7)]
+	b := []byte(strings.Repeat("abcdefghijklmnopqrstuvwxyz012345", n/32+1)[:n])
+	if r.Chance(2, 3) {
+		esc := []byte{'"', '\\', '\n'}[r.Intn(3)]
+		for k := 1 + r.Intn(3); k > 0; k-- {
+			pos := []int{1019, 1020, 1021, 1022, 1023, 1024, 1025, 0, n - 1, n / 2}[r.Intn(10)]
+			if pos < n {
+				b[pos] = esc
+			}
+		}
+	}
+	return string(b)
+}
+
 func verifC36Str(r *verifutil.Rand, hostile bool, base string) string {
+	if r.Chance(1, 25) {
+		return verifC36Long(r)
+	}
 	if hostile && r.Chance(1, 2) {
 		h := verifC36Hostile[r.Intn(len(verifC36Hostile))]
 		switch r.Intn(3) {
